@@ -66,6 +66,8 @@ type ScriptConn struct {
 	FullClose bool
 	// WriteFailAfter >= 0: writes fail once this many bytes have been accepted.
 	WriteFailAfter int
+	// BlockWrites: Write blocks (the peer has stopped reading and the buffers are full) until UnblockWrites or Close.
+	BlockWrites bool
 	// OnBlock runs when the server asks for input that has not been sent yet
 	// (current chunk exhausted): delivered = bytes handed out so far, out = bytes written so far.
 	OnBlock func(delivered int, out []byte)
@@ -78,6 +80,7 @@ type ScriptConn struct {
 	eofSeen   bool // EOF has been returned to the server
 	closed    bool // closed by the server
 	waiting   bool // server is blocked in Read with nothing queued
+	wblocked  bool // server is blocked in Write
 	delivered int
 	out       []byte
 	closes    int
@@ -207,6 +210,12 @@ func (c *ScriptConn) blockedLocked() {
 func (c *ScriptConn) Write(p []byte) (int, error) {
 	c.mu.Lock()
 	defer c.mu.Unlock()
+	for c.BlockWrites && !c.closed {
+		c.wblocked = true
+		c.cond.Broadcast()
+		c.cond.Wait()
+	}
+	c.wblocked = false
 	if c.closed {
 		return 0, net.ErrClosed
 	}
@@ -246,6 +255,32 @@ func (c *ScriptConn) RemoteAddr() net.Addr               { return addr(fmt.Sprin
 func (c *ScriptConn) SetDeadline(t time.Time) error      { return nil }
 func (c *ScriptConn) SetReadDeadline(t time.Time) error  { return nil }
 func (c *ScriptConn) SetWriteDeadline(t time.Time) error { return nil }
+
+// UnblockWrites lets blocked and future writes proceed.
+func (c *ScriptConn) UnblockWrites() {
+	c.mu.Lock()
+	c.BlockWrites = false
+	c.cond.Broadcast()
+	c.mu.Unlock()
+}
+
+// WaitWriteBlocked waits until the server is blocked in Write on this connection.
+func (c *ScriptConn) WaitWriteBlocked(timeout time.Duration) bool {
+	timer := time.AfterFunc(timeout, func() { c.mu.Lock(); c.cond.Broadcast(); c.mu.Unlock() })
+	defer timer.Stop()
+	deadline := time.Now().Add(timeout)
+	c.mu.Lock()
+	defer c.mu.Unlock()
+	for !c.wblocked {
+		// the server is waiting for more input (the request was incomplete or produced no reply), or has gone away
+		idle := c.waiting && len(c.queue) == 0 && len(c.cur) == 0
+		if c.closed || idle || (c.readEOF && c.eofSeen) || time.Now().After(deadline) {
+			return false
+		}
+		c.cond.Wait()
+	}
+	return true
+}
 
 // Out returns a copy of everything written so far.
 func (c *ScriptConn) Out() []byte {
